@@ -415,7 +415,78 @@ def job_field(cfg):
     return res
 
 
+def job_partial(cfg):
+    """fields with size-1 finite-element axes in complementary positions: a per-element field P (Ne, 1, ...) and a per-Gauss-point field B (1, nPg, ...)
+    (what geometry and reference shape functions are).  Non-elementwise operations on them still yield full (Ne, nPg, ...) finite-element arrays with the
+    per-point values, and a SECOND operation with a scalar field must act per point."""
+    from EasyFEA.FEM._linalg import FeArray
+
+    Ne, nPg, dim = cfg["Ne"], cfg["nPg"], cfg["dim"]
+    res = JobResult(cfg)
+    new_context()
+    tag = f"partial fields Ne={Ne} nPg={nPg} dim={dim}"
+    res.functions |= {"FeArray.__array_function__", "FeArray.__array_ufunc__", "FeArray.__matmul__", "_linalg._FeShape", "FeArray.__wrap", "FeArray._align"}
+    P = fe("P_", (Ne, 1, dim, dim))
+    B = fe("B_", (1, nPg, dim, dim + 1))
+    sfield = fe("s_", (Ne, nPg))
+    full = fe("F_", (Ne, nPg, dim, dim))
+    res.symbols = len(ctx().names)
+
+    def pp(f, *arrs):
+        out = None
+        for e in range(Ne):
+            for p_ in range(nPg):
+                args = [np.asarray(a, dtype=object)[e if a.shape[0] > 1 else 0, p_ if a.shape[1] > 1 else 0] for a in arrs]
+                r = np.asarray(f(*args), dtype=object)
+                if out is None:
+                    out = np.empty((Ne, nPg) + r.shape, dtype=object)
+                out[e, p_] = r
+        return out
+
+    def check(label, thunk, want):
+        try:
+            got = thunk()
+        except Exception as e:
+            res.record(f"{tag} {label}", Outcome("cex", env=dict(ctx().shadow), how="structure", detail=repr(e)[:160]), lambda env: (True, {"op": label, "raised": repr(e)[:200]}), key=f"{tag} {label}")
+            return None
+        ok, where = zero_diff(got, want)
+        typ_ok = isinstance(got, FeArray)
+        out = Outcome("held", how="normal-form") if (ok and typ_ok) else Outcome("cex", env=dict(ctx().shadow), how="shadow")
+        if ok and typ_ok:
+            smt.STATS["closed_by_normal_form"] += 1
+
+        def rp(env, got=got, want=want):
+            g, w = np.asarray(got, dtype=object), np.asarray(want, dtype=object)
+            info = {"op": label, "type_is_FeArray": isinstance(got, FeArray), "type_expected_FeArray": True, "shape_code": list(g.shape), "shape_oracle": list(w.shape)}
+            if g.shape != w.shape:
+                return True, info
+            d = float(np.abs(shadow_of(g) - shadow_of(w)).max()) if g.size else 0.0
+            return (d > 1e-9) or not isinstance(got, FeArray), {**info, "max_abs_difference_at_shadow_point": d, "first_bad_index": str(where)}
+
+        res.record(f"{tag} {label}", out, rp, key=f"{tag} {label}",
+                   sample=None if res.samples else {"config": tag, "op": label, "obligation": "result[e,p] == op(P[e], B[p]) for all entry values, result is a FeArray"})
+        return got
+
+    PB = check("P @ B", lambda: P @ B, pp(lambda a, b: mm(a, b), P, B))
+    if PB is not None:
+        check("s * (P @ B)", lambda: sfield * PB, pp(lambda a, b, s_: np.asarray(mm(a, b), dtype=object) * s_, P, B, sfield))
+    BtP = check("B.T @ P", lambda: B.T @ P, pp(lambda a, b: mm(np.asarray(b, dtype=object).T, a), P, B))
+    if BtP is not None and PB is not None:
+        check("(B.T @ P) @ (P @ B) - s", lambda: (BtP @ PB) - sfield, pp(lambda a, b, s_: np.asarray(mm(mm(np.asarray(b, dtype=object).T, a), mm(a, b)), dtype=object) - s_, P, B, sfield))
+    ein = check("np.einsum('...ij,...jk->...ik', P, B)", lambda: np.einsum("...ij,...jk->...ik", P, B), pp(lambda a, b: mm(a, b), P, B))
+    if ein is not None:
+        check("np.einsum(P, B) / s", lambda: ein / sfield, pp(lambda a, b, s_: np.asarray(mm(a, b), dtype=object) / s_, P, B, sfield))
+    check("full @ B", lambda: full @ B, pp(lambda f_, b: mm(f_, b), full, B))
+    check("P @ full", lambda: P @ full, pp(lambda a, f_: mm(a, f_), P, full))
+    check("P + B[..., :dim]", lambda: P + B[..., :dim], pp(lambda a, b: np.asarray(a, dtype=object) + np.asarray(b, dtype=object)[..., :dim], P, B))
+    res.twin(f"{tag} twin", True)
+    res.paths = 1
+    return res
+
+
 def run(cfg):
+    if cfg.get("partial"):
+        return job_partial(cfg)
     if cfg.get("field"):
         return job_field(cfg)
     return job_crosshair(cfg) if cfg.get("crosshair") else job(cfg)
@@ -431,6 +502,8 @@ def main():
         configs.append({"Ne": Ne, "nPg": nPg, "dim": dim, "rank4": tier == "thorough" and dim == 3 and Ne * nPg <= 4})
     configs.append({"crosshair": True})
     configs.append({"field": True})
+    for Ne, nPg, dim in ([(3, 2, 2), (2, 3, 3), (3, 3, 3)] if tier == "quick" else [(3, 2, 2), (2, 3, 3), (3, 3, 3), (2, 2, 2), (4, 3, 2), (3, 4, 3)]):
+        configs.append({"partial": True, "Ne": Ne, "nPg": nPg, "dim": dim})
     results = harness.run_jobs(run, configs)
     harness.finish(
         PID, results, t0=t0,
